@@ -311,3 +311,9 @@ Section LOSSLESS.
     destruct (loop_lossless fuel s0 [] [] L0 ltac:(lia)) as [k Ek]. exists k. exact Ek.
   Qed.
 End LOSSLESS.
+
+(* U+0000 inside a BOM-less UTF-8 text: read as UTF-16LE *)
+Example lossless_refuted_witness :
+  esr_run 32 W8 Skip [] 100 (stream_of (with_bom false Utf8 [0x61; 0; 0x62]%N) true) =
+    RunDone [ChSuccess; ChEndFile] [0x61]%N Utf16le.
+Proof. vm_compute. reflexivity. Qed.
